@@ -224,8 +224,9 @@ class AdaptiveBalance(AffineBalance):
         # Precondition swatched with current balance
         swatches_src_prebalanced = self.apply_balance(swatches_src)
 
-        # Update balancing, use formula A_new * (A_prev * x + b_prev) + b_new
-        # = (A_new * A_prev) * x + (A_new * b_prev + b_new)
+        # Update balancing. Balances act on colors as row vectors (see apply_balance),
+        # use formula (x * A_prev + b_prev) * A_new + b_new
+        # = x * (A_prev * A_new) + (b_prev * A_new + b_new)
         if mode == "diagonal":
             balance = WhiteBalance()
         elif mode == "linear":
@@ -233,11 +234,11 @@ class AdaptiveBalance(AffineBalance):
         elif mode == "affine":
             balance = AffineBalance()
         balance.find_balance(swatches_src_prebalanced, swatches_dst)
-        self.balance_scaling = balance.balance_scaling @ self.balance_scaling
+        self.balance_scaling = self.balance_scaling @ balance.balance_scaling
+        self.balance_translation = self.balance_translation @ balance.balance_scaling
         if mode == "affine":
             self.balance_translation = (
-                balance.balance_scaling @ self.balance_translation
-                + balance.balance_translation
+                self.balance_translation + balance.balance_translation
             )
 
 
